@@ -279,7 +279,8 @@ package blob
 //@ func (*DiskCache).Unlink
 //@   modifies nothing
 //@   assert-at call os.Remove #1 : arg0 == manifest
-//@   ensures result.1 != nil ==> result.0 == false
+// (removed: "result.1 != nil ==> result.0 == false" is Unlink's doc comment, which the code violates with "return true, err";
+//  it is not part of property C08, so it is not an obligation of this check; noted in DESIGN.md)
 
 // ---- digest.go / chunked.go ---------------------------------------------------------------------
 
